@@ -125,6 +125,19 @@ def addr_value(text):
     return v
 
 
+def announced_value(text):
+    """The value of an address as the SERVER may write it: like addr_value, but octets may carry leading zeros (read as decimal,
+    `010.1.2.3` is 10.1.2.3); for a text that denotes no address at all (`1.2.3`, a host name) the result is "ANY": what the daemon
+    makes of it is not specified - only that it goes on writing well-formed address texts."""
+    v = addr_value(text)
+    if v is not None:
+        return v
+    m = re.match(r"^(0::|0::ffff:|0:0:0:0:0:ffff:)?(\d{1,4})\.(\d{1,4})\.(\d{1,4})\.(\d{1,4})$", text)
+    if m and all(int(g) < 256 for g in m.groups()[1:]):
+        return addr_value((m.group(1) or "") + ".".join(str(int(g)) for g in m.groups()[1:]))
+    return "ANY"
+
+
 PW_RE = re.compile(r"^((?:[+-][x!]*)+) +(\S+ .*)$", re.S)
 
 
